@@ -24,7 +24,7 @@ LEVEL_TEXT = ('Proved in Lean on the whole render function of the pipeline model
               'of the Interpolator model shared with C06 (C06_candidate_own_brace, C06_dollar_run_even/_odd, C06_text_parts), tied '
               'to the code in text mode by correspondence over an exhaustive alphabet enumeration plus part-list texts, and judged on the '
               'implementation by a constructive reference; the bytes clause of PageTextTemplateFile is judged on files in several encodings.')
-LEVEL_NOTE = ('Known finding D-20b: character entities inside a ${...} expression are decoded in text mode too. Trusted: Lean kernel; the pipeline model (validated by correspondence in text mode). Interpretation I-2: CR/CRLF are '
+LEVEL_NOTE = ('D-20b (character entities inside a ${...} expression were decoded in text mode too) was repaired in /repo (fix: 8a4f2a3; TCfg.decodeInterp in the model: C20_render_text_expr_text needs no hypothesis about "&" any more). Trusted: Lean kernel; the pipeline model (validated by correspondence in text mode). Interpretation I-2: CR/CRLF are '
               'normalised to LF in text mode too (documented for every non-XML content type). The D-20a defect (a text template '
               'starting with "<" was parsed as markup) was repaired in /repo (fix: cf315bd).')
 RULE = ('(a) every string up to length 5 (quick: 4) over {<, >, &, $, {, }, a, ", newline, é, /, ?, ${x}}; (b) part-list texts: literal runs rich in markup / TAL-looking attributes / PIs / entities / $ runs '
@@ -42,7 +42,9 @@ EXPRS = [("x", '<V&>'), ("y", 'Zoë'), ("'}'", '}'), ("{'a': 1}['a']", '1'), ("'
          ("str({'k': '}'}['k'])", '}'), ("none", ''), ("max(1,\n\n 2)", '2'), ("'a' +\n \n 'b'", 'ab'), ("(y\n\n)", 'Zoë'), ("[n,\n\t\n n][0]", '7'), ("'<b>'", '<b>'), ("x | y", '<V&>'), ("nope | y", 'Zoë'), ("structure: x", '<V&>'),
          # an ampersand in front of letters that begin a legacy entity name, without the ';' that would make it a character reference
          ("'?p=2&copy=1'", '?p=2&copy=1'), ("'a&region=eu&notify=1'", 'a&region=eu&notify=1'), ("n&n", '7'), ("'&apos;'", '&apos;'), ("'&#65'", '&#65'),
-         ("'&foo;'", '&foo;'), ("'&'", '&'), ("'x&y'", 'x&y')]
+         ("'&foo;'", '&foo;'), ("'&'", '&'), ("'x&y'", 'x&y'),
+         # what would be a character entity in markup is ordinary text here (D-20b, fixed)
+         ("'a &amp; b'", 'a &amp; b'), ("'&lt;' + y", '&lt;Zoë'), ("len('&#65;')", '5'), ("'&quot;'", '&quot;')]
 VARS = [['x', {'str': '<V&>'}], ['y', {'str': 'Zoë'}], ['n', 7], ['none', None]]
 
 
@@ -204,11 +206,11 @@ def oracle(ctx):
         if got != want:
             ctx.violation('text mode: each ${expr} is replaced by the value of that occurrence of expr', {'src': src, 'kwargs': 'iterators / queues'},
                           expected=want, actual=got)
-    # D-20b: entities inside an expression are decoded in text mode too
+    # D-20b (fixed): entities inside an expression were decoded in text mode too
     r = pipeline.run_impl(dict(D20B, vars=[], objs=[]))
     if r.get('out') != 'a &amp; b':
         ctx.violation('text mode: a character entity inside ${...} is decoded before the expression is compiled', {'src': D20B['src'], 'vars': []},
-                      expected='a &amp; b', actual=r, finding='D-20b' if r.get('out') == 'a & b' else None)
+                      expected='a &amp; b', actual=r, finding=None)
 
 
 def reproduce_finding(ctx, f):
